@@ -6,7 +6,6 @@ import (
 	"encoding/binary"
 	"errors"
 	"fmt"
-	mrand "math/rand/v2"
 	"net"
 	"runtime"
 	"slices"
@@ -1546,7 +1545,7 @@ func getRequestBlocksPayload(p Peer, currHeight uint32, lastRequestedHeight *ato
 				}
 			}
 		} else {
-			index := mrand.IntN(bqueue.DefaultCacheSize / payload.MaxHashesCount)
+			index := randIntN(bqueue.DefaultCacheSize / payload.MaxHashesCount)
 			needHeight = currHeight + 1 + uint32(index*payload.MaxHashesCount)
 		}
 		break
